@@ -64,6 +64,47 @@ def ident(x):
     return x
 
 
+class Strict:
+    """A value which refuses to be compared with anything but its own kind (strict value classes do)."""
+
+    def __init__(self, v):
+        self.v = v
+
+    def __eq__(self, other):
+        if not isinstance(other, Strict):
+            raise TypeError("a Strict can only be compared with a Strict, got {}".format(type(other).__name__))
+        return self.v == other.v
+
+    def __hash__(self):
+        return hash(self.v)
+
+    def __repr__(self):
+        return "Strict({!r})".format(self.v)
+
+
+class Elementwise:
+    """An array-like: comparisons give an element-wise result which has no truth value."""
+
+    def __init__(self, *items):
+        self.items = list(items)
+
+    def __eq__(self, other):
+        return Elementwise(*[item == other for item in self.items])
+
+    def __bool__(self):
+        raise ValueError("the truth value of an Elementwise with several items is ambiguous")
+
+    def __len__(self):
+        return len(self.items)
+
+    def __repr__(self):
+        return "Elementwise({})".format(", ".join(repr(item) for item in self.items))
+
+
+G_STRICT = Strict(3)
+G_VECTOR = Elementwise(1, 2)
+
+
 class NotForTheseInputs(Exception):
     """Raised by helpers that are only defined for some inputs (not one of the built-in exception families)."""
 
@@ -185,7 +226,14 @@ class Gen:
             opts.append("walrus")
         if self.env.with_none:
             opts.append("n_or")
+        opts.append("odd_eq_display")
         k = rng.choice(opts)
+        if k == "odd_eq_display":
+            # list / tuple displays holding values whose __eq__ raises or gives a result without a truth value: building a display
+            # compares nothing, and neither may the re-computation
+            odd = rng.choice(["G_STRICT", "G_VECTOR"])
+            return rng.choice(["pick([{o}, {i}], 1)", "({o}, {i})[1]", "pick([*[{o}], {i}], 1)", "len(({o}, {o}, {i}))" if self.env.can_use("len") else "({o}, {i})[1]",
+                               "[{i}, {o}].index({i})"]).format(o=odd, i=self.int_expr(d + 1))
         if k == "pos":
             # unary plus is not the identity: +True is 1 (and an object may define __pos__ as it likes)
             inner = "{} {} {}".format(self.int_leaf(), rng.choice(["<", ">=", "!="]), self.int_leaf())
